@@ -5,7 +5,7 @@
    participated, spans set inside look-arounds kept, nothing left from abandoned alternatives:
    all of that is what [sem] computes). *)
 From FR Require Import Base State Utf8 Utf8Facts Chars Ast Analyze Sem SemSound Vm Compile
-                       Machine CompileCorrect RunCorrect EndToEnd ExprLemmas.
+                       Machine Param ArrowA CompileCorrect RunCorrect EndToEnd ExprLemmas.
 From Coq Require Import NArith Lia.
 
 Theorem C02_groups_follow_reference :
@@ -29,7 +29,31 @@ Proof.
   rewrite !nth_error_firstn' by lia. auto.
 Qed.
 
+
+(* the same for EVERY compiled program (delegated blocks with capture groups included: the
+   Delegate instruction copies the block's group spans into the slots, Proofs/DelegStep.v) *)
+Theorem C02_groups_follow_reference_all :
+  forall cs : list (list nat), valid_chars cs ->
+  forall cx : ctx, c_text cx = concat cs ->
+  (N.of_nat (length (concat cs)) < usize_max)%N ->
+  bnd cs (c_pos cx) ->
+  forall (bs : N -> bool) (e : expr) (p : prog),
+  compile bs (wrap e) = inr p -> oke true 0 (wrap e) -> refs_ok True (refd bs) (wrap e) ->
+  forall (max_st : nat) (lim : option N) (fuelv : nat) sv,
+  fst (vm_run cx p max_st lim fuelv) = RMatch sv ->
+  exists caps, search_list cx e (S (length (c_text cx))) = Some caps /\
+    forall g, g < S (ngroups e) ->
+      nth_error sv (2 * g) = nth_error caps (2 * g) /\
+      nth_error sv (2 * g + 1) = nth_error caps (2 * g + 1).
+Proof.
+  intros cs W cx Ht Hl Hp bs e p Hc Ho Hr max_st lim fuelv sv Hrun.
+  pose proof (vm_agrees_with_reference_all cs W cx Ht Hl Hp bs e p Hc Ho Hr max_st lim fuelv) as H.
+  rewrite Hrun in H. eexists; split; [exact H|]. intros g Hg.
+  rewrite !nth_error_firstn' by lia. auto.
+Qed.
+
 (* the groups of the pattern are numbered in pre-order = opening-parenthesis order *)
 Check ngroups_wrap.
 
 Print Assumptions C02_groups_follow_reference.
+Print Assumptions C02_groups_follow_reference_all.
